@@ -279,6 +279,8 @@ class AbstractOfflineSpecification(AbstractSpecification):
         self.explainer = explainer
 
     def explain(self):
+        if self.explainer is None:
+            raise RTAMTException('Explanations are available for discrete-time STL specifications with the standard semantics.')
         # the explainer reads temporal bounds in sampling periods, as the interpreter does
         self.explainer.time_unit_transformer = self.offline_interpreter.time_unit_transformer
         self.explainer.explain(self.ast)
@@ -368,7 +370,7 @@ class AbstractOnlineSpecification(AbstractSpecification):
 # we would not recomend to use it
 # Please note that. Even the class have both evaluate and update, calling both with same instance is not expected.
 class AbstractOfflineOnlineSpecification(AbstractOfflineSpecification, AbstractOnlineSpecification):
-    def __init__(self, ast, offlineInterpreter, onlineInterpreter, pastifier=None):
-        AbstractOfflineSpecification.__init__(self, ast, offlineInterpreter)
+    def __init__(self, ast, offlineInterpreter, onlineInterpreter, pastifier=None, explainer=None):
+        AbstractOfflineSpecification.__init__(self, ast, offlineInterpreter, explainer)
         AbstractOnlineSpecification.__init__(self, ast, onlineInterpreter, pastifier)
         self.name = 'Abstract Offline Online Specification'
